@@ -1,4 +1,5 @@
 import Ysgo.Model.F64
+import Ysgo.Model.Rng
 /-!
 # Straight-line float code, as translated from Go source by `tools/numfacts`
 
@@ -17,13 +18,21 @@ inductive FE where
   | call0 (f : String)
   | call1 (f : String) (a : FE)
   | call2 (f : String) (a b : FE)
+  | cmp (op : String) (a b : FE)       -- < <= > >= == !=
+  | lor (a b : FE)
+  | land (a b : FE)
+  | lnot (a : FE)
+  | ite (c a b : FE)                   -- `if c { return a }; … return b`
+  | const (name : String)              -- math.MaxInt64, math.MaxInt, time.Second
+  | conv (ty : String) (a : FE)        -- float64(x), int64(x), int(x), time.Duration(x)
   | unsupported (what : String)
   deriving Repr, Inhabited
 
 /-- a Go value of the straight-line fragment: a float64, or an int (parameters like `places`, untyped constants) -/
 inductive FV where
   | f (x : F64)
-  | i (z : Int)
+  | i (z : Int)          -- an int64 (int, int64, time.Duration on amd64), or an untyped integer constant
+  | b (v : Bool)
   deriving Inhabited
 
 namespace FE
@@ -32,6 +41,7 @@ namespace FE
 def asF : FV → F64
   | .f x => x
   | .i z => F64.ofInt z
+  | .b _ => F64.ofInt 0
 
 /-- the `math` functions the F64 model has -/
 def prim1 (f : String) (v : FV) : Option FV :=
@@ -45,7 +55,14 @@ def prim1 (f : String) (v : FV) : Option FV :=
 
 def arith (op : String) (a b : FV) : Option FV :=
   match a, b with
-  | .i _, .i _ => none            -- integer arithmetic is outside the fragment
+  | .b _, _ => none
+  | _, .b _ => none
+  | .i x, .i y =>                 -- int64 arithmetic wraps around
+    (match op with
+     | "+" => some (.i (Rng.wrap64 (x + y)))
+     | "-" => some (.i (Rng.wrap64 (x - y)))
+     | "*" => some (.i (Rng.wrap64 (x * y)))
+     | _ => none)
   | _, _ =>
     match op with
     | "+" => some (.f (F64.add (asF a) (asF b)))
@@ -54,64 +71,110 @@ def arith (op : String) (a b : FV) : Option FV :=
     | "/" => some (.f (F64.div (asF a) (asF b)))
     | _ => none
 
+def cmpOp (op : String) (a b : FV) : Option FV :=
+  match a, b with
+  | .i x, .i y =>
+    (match op with
+     | "<" => some (.b (x < y)) | "<=" => some (.b (x ≤ y)) | ">" => some (.b (x > y)) | ">=" => some (.b (x ≥ y))
+     | "==" => some (.b (x = y)) | "!=" => some (.b (x ≠ y)) | _ => none)
+  | .f x, .f y =>
+    (match op with
+     | "<" => some (.b (F64.lt x y)) | "<=" => some (.b (F64.le x y)) | ">" => some (.b (F64.gt x y)) | ">=" => some (.b (F64.ge x y))
+     | "==" => some (.b (F64.eq x y)) | "!=" => some (.b (F64.ne x y)) | _ => none)
+  | _, _ => none
+
+def constant : String → Option FV
+  | "math.MaxInt64" => some (.i 9223372036854775807)
+  | "math.MaxInt" => some (.i 9223372036854775807)       -- int is 64 bits on the platforms the models describe
+  | "time.Second" => some (.i 1000000000)
+  | _ => none
+
+/-- Go conversions between float64 and the 64-bit integer types (amd64 semantics of the F64 model) -/
+def convert (ty : String) (v : FV) : Option FV :=
+  match ty, v with
+  | "float64", .f x => some (.f x)
+  | "float64", .i z => some (.f (F64.ofInt z))
+  | "int64", .f x => some (.i (F64.toInt64 x))
+  | "int", .f x => some (.i (F64.toInt64 x))
+  | "time.Duration", .f x => some (.i (F64.toInt64 x))
+  | "int64", .i z => some (.i z)
+  | "int", .i z => some (.i z)
+  | "time.Duration", .i z => some (.i z)
+  | _, _ => none
+
 abbrev Defs := List (String × List (String × String) × FE)
 
 def lookupDef (defs : Defs) (f : String) : Option (List (String × String) × FE) :=
   (defs.find? (fun d => d.1 == f)).map (·.2)
 
 /-- bind the parameters: a `float64` parameter takes a float, an `int` parameter an int; anything else does not bind -/
-def bind : List (String × String) → List FV → Option (List (String × FV))
+def bindParams : List (String × String) → List FV → Option (List (String × FV))
   | [], [] => some []
-  | (n, "float64") :: ps, .f x :: vs => (bind ps vs).map ((n, .f x) :: ·)
-  | (n, "float64") :: ps, .i z :: vs => (bind ps vs).map ((n, .f (F64.ofInt z)) :: ·)
-  | (n, "int") :: ps, .i z :: vs => (bind ps vs).map ((n, .i z) :: ·)
+  | (n, "float64") :: ps, .f x :: vs => (bindParams ps vs).map ((n, .f x) :: ·)
+  | (n, "float64") :: ps, .i z :: vs => (bindParams ps vs).map ((n, .f (F64.ofInt z)) :: ·)
+  | (n, "int") :: ps, .i z :: vs => (bindParams ps vs).map ((n, .i z) :: ·)
+  | (n, "int64") :: ps, .i z :: vs => (bindParams ps vs).map ((n, .i z) :: ·)
   | _, _ => none
 
 def lookupVar (env : List (String × FV)) (n : String) : Option FV :=
   (env.find? (fun kv => kv.1 == n)).map (·.2)
 
-/-- the Go meaning of a translated term; `fuel` bounds the nesting of terms and calls -/
-def eval (defs : Defs) : Nat → List (String × FV) → FE → Option FV
-  | 0, _, _ => none
-  | _ + 1, env, .var n => lookupVar env n
-  | _ + 1, _, .lit z => some (.i z)
-  | fuel + 1, env, .neg a =>
-    (match eval defs fuel env a with
+/-- the Go meaning of a translated term; `user` is the meaning of calls of other translated functions -/
+def eval (user : String → List FV → Option FV) (env : List (String × FV)) : FE → Option FV
+  | .var n => lookupVar env n
+  | .lit z => some (.i z)
+  | .neg a =>
+    (match eval user env a with
      | some (.f x) => some (.f (F64.neg x))
-     | some (.i z) => some (.i (-z))
-     | none => none)
-  | fuel + 1, env, .bin op a b =>
-    (match eval defs fuel env a, eval defs fuel env b with
+     | some (.i z) => some (.i (Rng.wrap64 (-z)))
+     | _ => none)
+  | .bin op a b =>
+    (match eval user env a, eval user env b with
      | some va, some vb => arith op va vb
      | _, _ => none)
-  | fuel + 1, _, .call0 f =>
-    (match lookupDef defs f with
-     | some (ps, body) => (bind ps []).bind (fun env' => eval defs fuel env' body)
+  | .call0 f => user f []
+  | .call1 f a =>
+    (match eval user env a with
+     | some va => (match prim1 f va with | some r => some r | none => user f [va])
      | none => none)
-  | fuel + 1, env, .call1 f a =>
-    (match eval defs fuel env a with
-     | some va =>
-       (match prim1 f va with
-        | some r => some r
-        | none =>
-          (match lookupDef defs f with
-           | some (ps, body) => (bind ps [va]).bind (fun env' => eval defs fuel env' body)
-           | none => none))
-     | none => none)
-  | fuel + 1, env, .call2 f a b =>
-    (match eval defs fuel env a, eval defs fuel env b with
-     | some va, some vb =>
-       (match lookupDef defs f with
-        | some (ps, body) => (bind ps [va, vb]).bind (fun env' => eval defs fuel env' body)
-        | none => none)
+  | .call2 f a b =>
+    (match eval user env a, eval user env b with
+     | some va, some vb => user f [va, vb]
      | _, _ => none)
-  | _ + 1, _, .unsupported _ => none
+  | .cmp op a b =>
+    (match eval user env a, eval user env b with
+     | some va, some vb => cmpOp op va vb
+     | _, _ => none)
+  | .lor a b =>
+    (match eval user env a with
+     | some (.b true) => some (.b true)
+     | some (.b false) => (match eval user env b with | some (.b v) => some (.b v) | _ => none)
+     | _ => none)
+  | .land a b =>
+    (match eval user env a with
+     | some (.b false) => some (.b false)
+     | some (.b true) => (match eval user env b with | some (.b v) => some (.b v) | _ => none)
+     | _ => none)
+  | .lnot a => (match eval user env a with | some (.b v) => some (.b !v) | _ => none)
+  | .ite c a b =>
+    (match eval user env c with
+     | some (.b true) => eval user env a
+     | some (.b false) => eval user env b
+     | _ => none)
+  | .const n => constant n
+  | .conv ty a => (match eval user env a with | some v => convert ty v | none => none)
+  | .unsupported _ => none
 
-/-- call the translated function `f` of `defs` with arguments `vs` -/
-def run (defs : Defs) (f : String) (vs : List FV) : Option FV :=
+/-- one more level of calls among the translated functions -/
+def step (defs : Defs) (user : String → List FV → Option FV) (f : String) (vs : List FV) : Option FV :=
   match lookupDef defs f with
-  | some (ps, body) => (bind ps vs).bind (fun env => eval defs 16 env body)
+  | some (ps, body) => (bindParams ps vs).bind (fun env => eval user env body)
   | none => none
+
+/-- call the translated function `f` of `defs` with arguments `vs`; calls among the translated functions may nest four
+deep (the source nests them one deep: `inc` calls `floor`) -/
+def run (defs : Defs) : String → List FV → Option FV :=
+  step defs (step defs (step defs (step defs (fun _ _ => none))))
 
 end FE
 end Ysgo
